@@ -15,6 +15,7 @@ import sys
 from common import Check, Driver, Infra, VERIF, sarpy_guard
 import c13x
 import c13t
+import c13a
 
 sys.path.insert(0, os.path.join(VERIF, 'translate'))
 
@@ -342,6 +343,8 @@ def run(tier):
     broken = chk.prove(['SarpyModel.Props.C13', 'SarpyModel.Gen.NitfTables', 'SarpyModel.Drivers'], 'SarpyModel.Props.C13',
                        'Sarpy.Props.C13', REQUIRED, gen_info)
     broken += xs.prove()
+    asg = c13a.Session(chk, tier, gen, c13x.controllers(xs.descs))    # C13a: assignment-time clause over the descriptors of Gen/NitfDescs.lean
+    broken += asg.prove()
     # the pad pixel code width is regenerated from MaskSubheader.define_tpxcd_length and bridged (Bridge/Kernels2.lean)
     import kernels2
     from common import audit as _audit
@@ -420,6 +423,10 @@ def run(tier):
         jobs.append(('loop', py, None, drv.ask(f'nitf loop 1 s80 {body}'), None))
     xs.enqueue(drv)
     ts.enqueue(drv)
+    # assignment-time clause: a separate batch of live instances (they are assigned to and restored, so they are not shared with the above)
+    live = [(l, i, None) for l, i in build_instances(rng, 'quick') if not isinstance(i, Exception)]
+    live += [(l, i, p) for l, _d, i, p in c13x.build_instances(rng, 'quick') if not isinstance(i, Exception)]
+    asg.enqueue(drv, live)
     try:
         ans = drv.run()
     except Infra as e:
@@ -450,6 +457,10 @@ def run(tier):
     disagreements += d2
     stats.update(s2)
     classes_seen |= set(s2.get('x_classes', []))
+    f4, d4, s4 = asg.collect(ans)
+    fails += f4
+    disagreements += d4
+    stats.update(s4)
     f3, d3, s3 = ts.collect(ans)
     fails += f3
     disagreements += d3
@@ -459,7 +470,8 @@ def run(tier):
         'evaluations': stats.get('instances', 0) + stats.get('rejections', 0) + stats.get('model_records', 0)
                        + stats.get('x_instances', 0) + stats.get('x_model_records', 0) + stats.get('x_tre_lists', 0)
                        + stats.get('t_payloads', 0) + stats.get('t_model_records', 0) + stats.get('t_dispatch_cases', 0) + stats.get('t_probes', 0)
-                       + stats.get('t_snapshot_payloads', 0),
+                       + stats.get('t_snapshot_payloads', 0) + stats.get('a_assignments', 0) + stats.get('a_model_assignments', 0)
+                       + stats.get('h_steps', 0),
         'distinct_nontrivial': len(classes_seen),
         'rule': 'instances of every NITF 2.1/2.0 element class (defaults + random accepted values: edge-of-width integers incl. negatives, strings up to the width, '
                 'enumerations; file headers with 0-4 item arrays; image subheaders with 1-12 bands incl. the >9 extension, LUTs with 1-3 tables, 0-9 comments, '
@@ -517,4 +529,8 @@ def replay(path):
     print(json.dumps(case)[:1500])
     if isinstance(case, dict) and case.get('tre') and case.get('bytes'):
         return c13t.replay_case(case)
+    if isinstance(case, dict) and case.get('kind') == 'assign' and isinstance(case.get('case'), dict):
+        return c13a.replay_case(case['case'])
+    if isinstance(case, dict) and case.get('history') and case.get('bytes'):
+        return c13x.replay_case(case)
     return 1
